@@ -17,6 +17,19 @@ CHECKS = {
             "3 threads with a preemption bound. Oracle: every message exactly once, contiguous, per-thread FIFO, queue empty, no deadlock.",
             "C-level atomicity of list.append/pop and the try-lock under the GIL; scheduling points at source lines of _send (opcodes in thorough); sim lock replaces threading.Lock",
             "E1+E2", "DESIGN.md#c12"),
+    "C13": ("model_checking",
+            "stateless DFS over thread schedules of the real serve()/wait()/dispatch code at source-line granularity with state cache and a partial-order reduction for the environment peer; peer reply order enumerated",
+            "2 requesters (unbounded preemptions), 1 requester + BgServingThread (unbounded), 2 requesters + background thread, 3 requesters and 2x2 requests "
+            "(preemption-bounded) against a reference-codec peer that answers in every order; oracle: own reply exactly once, every frame dispatched once, "
+            "distinct sequence numbers, no deadlock, no lost wake-up.",
+            "line-granularity points in the watched functions (quick: the hand-off core; thorough: plus _send/sync_request/async_request/value); GIL atomicity of dict.pop and itertools.count; the peer's steps are atomic and offered only at transport polls (POR, cross-checked in selftest)",
+            "E1+E2", "DESIGN.md#c13"),
+    "C14": ("model_checking",
+            "same explorer and harness as C13 with a virtual-clock stall monitor: the clock may not advance while a ready waiter is blocked",
+            "All interleavings of caller(s) and the background serving thread around release/notify/dispatch; the first clock advance with a processed reply and a blocked waiter is the violation. "
+            "The pinned tree's stall is a recorded known finding (2 signatures); any other stall signature fails the check.",
+            "virtual time advances only when no thread can run; signatures distinguish where the waiter blocks, whether its last readiness read was stale, and who holds the receive lock",
+            "E1+E2", "DESIGN.md#c14"),
 }
 
 NOT_APPLICABLE = {}
